@@ -16,6 +16,9 @@ func main() {
 	case "parser":
 		setupLogger()
 		runParser(os.Args[2:])
+	case "exec":
+		setupLogger()
+		runExec(os.Args[2:])
 	default:
 		fmt.Fprintln(os.Stderr, "unknown engine", os.Args[1])
 		os.Exit(2)
